@@ -2,8 +2,8 @@ TRUST = ("trusted: the pyvc VC generator and its Python-subset semantics (ints m
          "library contracts listed in the evidence's trusted_base, the domain assumptions on samplers/datasets named in the contracts")
 CHECKS = {
     "C03": dict(level="proof", technique="contract-based deductive verification of the wrapper constructors over integer-sequence terms (AST->SMT; numpy/torch index-array contracts), termination by loop variant, bounded real wrappers",
-                text="PercentFilter / SubsetWrapper / RepeatWrapper / ShuffleWrapper constructors establish exactly the promised index sequence (contiguous ranges with None-only defaults, whole round-robin copies "
-                     "reaching min_size, a permutation keyed by the seed); OversamplingWrapper(exact) terminates for every class layout; the remaining five wrappers and the balance clauses are bounded only",
+                text="PercentFilter / SubsetWrapper / RepeatWrapper / ShuffleWrapper / ClassFilterWrapper / SortByClassWrapper constructors establish exactly the promised index sequence (contiguous ranges with None-only defaults, whole round-robin copies "
+                     "reaching min_size, a permutation keyed by the seed, order-preserving class filter, strict (class, position) order with every labelled sample present); OversamplingWrapper(exact) terminates for every class layout; the remaining four wrappers and the balance clauses are bounded only",
                 note=TRUST + "; numpy arange/tile/ceil/shuffle contracts; percent products on reals; KDSubset constructibility as frame obligation"),
     "C04": dict(level="proof", technique="contract-based deductive verification (own AST->SMT VC generator, z3+cvc5), refinement of a ghost spec automaton by loop invariants",
                 text="every obligation generated from the real InterleavedSampler.__init__/__iter__/_training_loop and _InterleavedBatchSampler.__iter__ "
@@ -60,7 +60,7 @@ CHECKS = {
                 note=TRUST + "; torch.randperm/multinomial/randint are uninterpreted functions of (generator key, draw number); torch's own __iter__ for num_repeats==1 is trusted"),
     "C13": dict(level="proof", technique="contract-based deductive verification (loop invariants with variant on the per-class chunk loop) + bounded stand-in for multiset clauses",
                 text="class-balanced: chunk lengths sum to samples_per_class per class (invariant + termination), weighted: no repeats / valid indices from the multinomial axiom, "
-                     "length modes of the semi sampler; evenness, pool exhaustion and alternation only bounded (stated in evidence)",
+                     "length modes of the semi sampler, SemiSampler.__init__ partitions the dataset into labeled / unlabeled pools by the -1 marker; evenness, pool exhaustion and alternation only bounded (stated in evidence)",
                 note=TRUST),
     "C14": dict(level="proof", technique="contract-based deductive verification of the crop / pad / erase / segmentation-pair / norm transforms over an abstract image (width, height, channels, per-channel affine value map; torchvision functional ops as assumed contracts that oblige their box / padding arguments and record them in ghost registers; AST->SMT, z3+cvc5, nonlinear real arithmetic for the aspect-ratio fallback) + frame obligations on the einops patterns + bounded image-level stand-in (tensor and PIL)",
                 text="get_params of KDRandomCrop / KDTwoRandomCrop / KDRandomResizedCrop / KDSemsegRandomCrop return a box inside the image they were computed for, with the requested size, for all image and target sizes; "
